@@ -683,8 +683,44 @@ class Directed(Scenario):
         return self.ops
 
 
+def _cache_key(seed, tier):
+    import hashlib
+    h = hashlib.sha1()
+    with open(HBIN, "rb") as f:
+        h.update(f.read())
+    with open(os.path.abspath(__file__), "rb") as f:
+        h.update(f.read())
+    h.update(f"{seed}/{tier}".encode())
+    return h.hexdigest()
+
+
 def gen_vsock(P):
     def gen(seed, tier):
+        # Scenarios are generated by talking to the harness binary built from /repo's current tree; several
+        # property checks use the same set, so it is cached under a key that includes that binary's hash.
+        import json
+        cdir = os.path.normpath(os.path.join(HERE, "..", "..", ".cache"))
+        key = _cache_key(seed, tier)
+        cpath = os.path.join(cdir, f"vsock-{key}.json")
+        if os.path.exists(cpath):
+            try:
+                return json.load(open(cpath))
+            except Exception:
+                pass
+        cases = gen_uncached(seed, tier)
+        try:
+            os.makedirs(cdir, exist_ok=True)
+            for fn in os.listdir(cdir):
+                if fn.startswith("vsock-") and len(os.listdir(cdir)) > 6:
+                    os.unlink(os.path.join(cdir, fn))
+            tmp = cpath + f".{os.getpid()}"
+            json.dump(cases, open(tmp, "w"))
+            os.replace(tmp, cpath)
+        except OSError:
+            pass
+        return cases
+
+    def gen_uncached(seed, tier):
         r = P.rng_for(seed, "vsock")
         impl = Impl()
         cases = []
